@@ -260,10 +260,113 @@ func (r *factResult) atomsOf(cond ssa.Value, pol bool, out map[*ssa.BasicBlock]A
 			return atoms
 		}
 	}
-	if pol {
-		return []string{atom("true", p.lpath(cond))}
+	var extra []string
+	if cl, ok := cond.(*ssa.Call); ok && depth < 3 {
+		extra = r.helperAtoms(cl, pol, depth)
 	}
-	return []string{atom("false", p.lpath(cond))}
+	if pol {
+		return append(extra, atom("true", p.lpath(cond)))
+	}
+	return append(extra, atom("false", p.lpath(cond)))
+}
+
+// helperAtoms: cond is a call of an in-scope bool helper; the atoms that hold at every return of the helper
+// yielding `pol`, with the helper's parameter paths rewritten to the argument paths of this call
+// (so that extracting a validation helper does not break a guard rule; bound: 3 nested helpers).
+func (r *factResult) helperAtoms(cl *ssa.Call, pol bool, depth int) []string {
+	p := r.p
+	g := cl.Call.StaticCallee()
+	if g == nil || !p.inScope[g] || g.Blocks == nil || g == r.f {
+		return nil
+	}
+	if g.Signature.Results().Len() != 1 || g.Signature.Results().At(0).Type().String() != "bool" {
+		return nil
+	}
+	gr := p.factsOf(g)
+	var acc AtomSet
+	for _, ret := range returnsOf(g) {
+		v := retVals(ret)[0]
+		fs := p.Facts(ret)
+		if k, isC := v.(*ssa.Const); isC {
+			if (k.Value.ExactString() == "true") != pol {
+				continue
+			}
+		} else {
+			for _, a := range gr.atomsOf(v, pol, map[*ssa.BasicBlock]AtomSet{}, depth+1) {
+				fs[a] = true
+			}
+		}
+		if acc == nil {
+			acc = fs.clone()
+		} else {
+			for a := range acc {
+				if !fs[a] {
+					delete(acc, a)
+				}
+			}
+		}
+	}
+	var out []string
+	for a := range acc {
+		// rewrite parameter paths to argument paths
+		b := a
+		okAll := true
+		for i, pr := range g.Params {
+			if i >= len(cl.Call.Args) {
+				break
+			}
+			from := "p:" + pr.Name()
+			if !mentionsPath(b, from) {
+				continue
+			}
+			b = replacePath(b, from, p.lpath(cl.Call.Args[i]))
+		}
+		// atoms about the helper's own registers do not translate
+		if strings.Contains(b, "v:") && b == a && strings.Contains(a, "v:") {
+			okAll = false
+		}
+		if strings.Contains(b, "cell:") {
+			okAll = false
+		}
+		if okAll {
+			out = append(out, b)
+		}
+	}
+	sort.Strings(out)
+	return out
+}
+
+func mentionsPath(atomStr, path string) bool {
+	i := strings.IndexByte(atomStr, '(')
+	if i < 0 {
+		return false
+	}
+	return mentions(atomStr[i+1:len(atomStr)-1], path)
+}
+
+// replacePath substitutes every occurrence of path `from` (at a path boundary) by `to`.
+func replacePath(s, from, to string) string {
+	var sb strings.Builder
+	i := 0
+	for i < len(s) {
+		j := strings.Index(s[i:], from)
+		if j < 0 {
+			sb.WriteString(s[i:])
+			break
+		}
+		st := i + j
+		end := st + len(from)
+		startOK := st == 0 || strings.ContainsRune(",([: ", rune(s[st-1]))
+		endOK := end == len(s) || strings.ContainsRune(".#[),]", rune(s[end]))
+		sb.WriteString(s[i:st])
+		if startOK && endOK {
+			sb.WriteString(to)
+		} else {
+			sb.WriteString(from)
+		}
+		i = end
+	}
+	return sb.String()
 }
 
 func pathHasPrefix(path, pre string) bool {
